@@ -208,19 +208,12 @@ def error_norm(ctx):
         ctx.ok('compute_error == mixed rtol/atol RMS norm (3 tolerance regimes, symbolic y1,y2)')
 
 
-def run(ctx):
-    ctx.fn('BaseSDESolver.integrate (adaptive branch)', 'adaptive_stepping.update_step_size', 'adaptive_stepping.compute_error',
-           'adaptive_stepping._rms', 'interp.linear_interp')
-    ctx.stubs += ['solver.step -> fresh symbolic state per call', 'compute_error -> arbitrary e >= 1e-7 per trial (schedule exploration)',
-                  'x ** a (a non-integer) -> fresh positive value with (x>1 <=> result>1), (x==1 <=> result==1)']
-    ctx.bounds = {'trials from ts[0]': '<=2 (quick) / <=3', 'output times': '2 (quick) / <=3', 'dt, dt_min, ts': 'arbitrary reals, dt >= dt_min > 0'}
-    ctx.assumptions += ['precondition dt >= dt_min > 0 (a first trial shorter than dt_min when the caller passes dt < dt_min is outside the claim)',
-                        'termination: per-trial facts proved here (a rejection shrinks the controller step, never below dt_min; '
-                        'an accepted step advances time by >= min(dt_min, remaining)) + the standard ranking argument (stated, not solved)']
-    ctx.outside += ['"tightening the tolerances reduces the true error" (a monotone limit statement)', 'schedules longer than the trial bound (loop body is uniform)']
-    tasks = tasks_for(ctx.tier)
+def check_schedules(ctx, prefix='', sig_prefix='', extra=None, tier=None):
+    """the adaptive-loop obligations; also discharged by C01 (accepted steps tile the horizon and consume exactly their own
+    Brownian increments: a rejected trial must leave time and state untouched)"""
+    tasks = tasks_for(tier or ctx.tier)
     for t, (st, res) in zip(tasks, pmap(run_one, tasks)):
-        name = f"adaptive trials<={t[0]} nout={t[1]}"
+        name = f"{prefix}adaptive trials<={t[0]} nout={t[1]}"
         if st != 'ok':
             ctx.inconc(name, str(res)[:500]); continue
         ctx.paths += res['stats']['paths']; ctx.queries += res['stats']['queries']; ctx.solver_s += res['stats']['solver_s']
@@ -236,7 +229,20 @@ def run(ctx):
             seen.add(what)
             if f['kind'] == 'unknown':
                 ctx.inconc(f"{name}|{what}", f['detail'][:200]); continue
-            ctx.violation(f"adaptive|{what}", f"{f['what']}: {f['detail'][:200]}", replay=dict(inputs=f['inputs'], what=what, nout=t[1]))
+            ctx.violation(f"{sig_prefix}adaptive|{what}", f"{f['what']}: {f['detail'][:200]}", replay=dict(inputs=f['inputs'], what=what, nout=t[1], **(extra or {})))
+
+
+def run(ctx):
+    ctx.fn('BaseSDESolver.integrate (adaptive branch)', 'adaptive_stepping.update_step_size', 'adaptive_stepping.compute_error',
+           'adaptive_stepping._rms', 'interp.linear_interp')
+    ctx.stubs += ['solver.step -> fresh symbolic state per call', 'compute_error -> arbitrary e >= 1e-7 per trial (schedule exploration)',
+                  'x ** a (a non-integer) -> fresh positive value with (x>1 <=> result>1), (x==1 <=> result==1)']
+    ctx.bounds = {'trials from ts[0]': '<=2 (quick) / <=3', 'output times': '2 (quick) / <=3', 'dt, dt_min, ts': 'arbitrary reals, dt >= dt_min > 0'}
+    ctx.assumptions += ['precondition dt >= dt_min > 0 (a first trial shorter than dt_min when the caller passes dt < dt_min is outside the claim)',
+                        'termination: per-trial facts proved here (a rejection shrinks the controller step, never below dt_min; '
+                        'an accepted step advances time by >= min(dt_min, remaining)) + the standard ranking argument (stated, not solved)']
+    ctx.outside += ['"tightening the tolerances reduces the true error" (a monotone limit statement)', 'schedules longer than the trial bound (loop body is uniform)']
+    check_schedules(ctx)
     error_norm(ctx)
     # twin
     E = Engine(max_paths=400)
